@@ -107,6 +107,26 @@ pub mod testutil {
     }
 }
 
+#[cfg(feature = "verif-hooks")]
+impl PathNodeContext {
+    /// (path, next_key) of every node below and including this one, in sorted path order.
+    pub fn verif_dump(&self) -> Vec<(Vec<String>, usize)> {
+        fn go(node: &PathNodeContext, prefix: &mut Vec<String>, out: &mut Vec<(Vec<String>, usize)>) {
+            out.push((prefix.clone(), node.key_mgr.next_key));
+            let mut keys: Vec<&String> = node.child_nodes.keys().collect();
+            keys.sort();
+            for key in keys {
+                prefix.push(key.clone());
+                go(node.child_nodes.get(key).unwrap(), prefix, out);
+                prefix.pop();
+            }
+        }
+        let mut out = Vec::new();
+        go(self, &mut Vec::new(), &mut out);
+        out
+    }
+}
+
 #[cfg(test)]
 mod tests {
     use super::*;
